@@ -163,7 +163,7 @@ class ListCase(object):
 
 OPS = [201130, 201000, 202129, 202000, 204008, 204000, 205004, 206012, 207002, 207000, 208016, 208000, 221003, 222000,
        223000, 223255, 224000, 224255, 225000, 225255, 232000, 232255, 235000, 236000, 237000, 237255, 203012, 203255, 203000]
-UNDEFINED_E = [1250, 12250, 48001, 63255, 20255]
+UNDEFINED_E = [1250, 12250, 48001, 63255, 20255, 0]      # 0: the all-zero descriptor 0 00 000 is in no table either
 UNDEFINED_S = [363255, 301250, 348001]
 FACTORS = [31000, 31001, 31002, 31011, 31012]
 SELECTIONS = [(0, 0, 33, 0), (0, 0, 13, 0), (0, 0, 25, 0), (98, 0, 19, 1), (98, 0, 40, 101), (0, 0, 41, 0), (98, 0, 33, 3)]
